@@ -40,7 +40,7 @@ func rtuCRCOK(b []byte) bool {
 }
 
 // Fault kinds.
-var faults = []string{"stall", "eof", "eof-with-bytes", "ioerr", "ioerr-with-bytes", "ioerr-timeout-typed", "oversize", "oversize-frame", "write", "cancel-before", "cancel-in-read", "deadline-before", "deadline-in-stall", "not-connected", "connect-failed", "nil-request"}
+var faults = []string{"stall", "eof", "eof-with-bytes", "ioerr", "ioerr-with-bytes", "ioerr-timeout-typed", "oversize", "oversize-frame", "write", "cancel-before", "cancel-in-read", "cancel-reply-continues", "deadline-before", "deadline-in-stall", "not-connected", "connect-failed", "nil-request"}
 
 type faultCase struct {
 	Kind    string   `json:"kind"`
@@ -167,6 +167,25 @@ func prepare(c faultCase) (prep, error) {
 		p.faultIdx = len(ev)
 		ev = append(ev, xport.Event{Kind: "cancel"})
 		sc.ReadTimeoutMs = 2000
+	case "cancel-reply-continues":
+		// every read of the port really blocks (7 ms each, as a serial port does while bytes trickle in); the caller gives up during one
+		// of them, and the rest of the reply keeps arriving in the reads after it: whatever the client still reads, the call is over
+		for i := range ev {
+			if i >= len(ev)-3 {
+				ev[i].Ms = 7
+			}
+		}
+		p.faultIdx = len(ev)
+		rest := len(stream) - pre
+		k := min(3, rest-1) // (the read during which the caller gives up never completes the reply: at least one byte follows)
+		ev = append(ev, xport.Event{Kind: "cancel", N: k, Ms: 7})
+		rest -= k
+		step := max(4, (rest+4)/5) // (at most five more reads)
+		for ; rest > 0; rest -= k {
+			k = min(step, rest)
+			ev = append(ev, xport.Event{Kind: "data", N: k, Ms: 7})
+		}
+		sc.ReadTimeoutMs = 2000
 	case "deadline-before":
 		sc.DeadlineMs = -1
 		sc.ReadTimeoutMs = 2000
@@ -207,6 +226,11 @@ func prepare(c faultCase) (prep, error) {
 			st := cli.Model(c.Kind, stream, ev, E)
 			// the client stops (early) before it ever reaches the fault event
 			if !st.Timeout && st.EventsUsed <= p.faultIdx {
+				p.affected = true
+			}
+			if c.Fault == "cancel-reply-continues" {
+				// (where a listed expected-length finding applies the client may take the reply for complete at one of these reads:
+				// this fault is judged for the other request types only)
 				p.affected = true
 			}
 			if c.Fault == "oversize" && !st.Timeout && st.EventsUsed == p.faultIdx+1 && false {
@@ -329,7 +353,7 @@ func judge(c faultCase, p prep, o cli.Outcome) harness.Result {
 		if len(o.Reads) != 0 {
 			return harness.Fail(desc + "client read from the transport after a failed write")
 		}
-	case "cancel-before", "cancel-in-read":
+	case "cancel-before", "cancel-in-read", "cancel-reply-continues":
 		if !errors.Is(o.Err, context.Canceled) {
 			return harness.Fail(desc+"cancellation not reported as the context's error: %T %v", o.Err, o.Err)
 		}
@@ -361,7 +385,7 @@ func judge(c faultCase, p prep, o cli.Outcome) harness.Result {
 			return harness.Fail(desc+"did not fail immediately (%v)", o.Elapsed)
 		}
 	}
-	return harness.Result{NonTrivial: inside || c.Fault == "cancel-in-read" || c.Fault == "deadline-in-stall", Labels: labels}
+	return harness.Result{NonTrivial: inside || c.Fault == "cancel-in-read" || c.Fault == "cancel-reply-continues" || c.Fault == "deadline-in-stall", Labels: labels}
 }
 
 func respBytes(o cli.Outcome) []byte {
